@@ -134,7 +134,12 @@ def gen_case(seed, idx, tier="quick"):
     seeds = cfg["node_seeds"]
     a = rng.choice(seeds)
     b = rng.choice([s for s in seeds if s != a] or seeds)
-    return {"specs": colls, "conditioned": conditioned, "flavor": rng.choice(["PROKARYOTIC", "EUKARYOTIC"]), "update_translations": rng.random() < 0.7,
+    prior = None
+    if colls and rng.random() < 0.35:
+        t = copy.deepcopy(colls[0])
+        t["parent"]["genome"]["seq"] = t["parent"]["genome"]["seq"].translate(str.maketrans("ACGT", "CATG"))
+        prior = [t]
+    return {"specs": colls, "prior": prior, "conditioned": conditioned, "flavor": rng.choice(["PROKARYOTIC", "EUKARYOTIC"]), "update_translations": rng.random() < 0.7,
             "hs_a": a, "hs_b": b, "faults": rng.random() < cfg["fault_p"], "reader_chunk": rng.choice([1, 16, 256]), "warm": rng.random() < 0.3}
 
 
@@ -167,6 +172,14 @@ def h_export(req):
                 [t.get_protein_sequence() for g in c.genes for t in g.transcripts if t.cds]
             except Exception:
                 pass
+    if case.get("prior"):
+        # earlier activity in this exporter process: a strain twin (same annotation, other bases) was exported first
+        try:
+            pw = simdisk.SimWriter()
+            _export([build.build_collection(sp)[0] for sp in case["prior"]], case, pw)
+            out["prior_text"] = pw.getvalue()
+        except Exception as e:
+            out["prior_error"] = type(e).__name__
     w = simdisk.SimWriter()
     try:
         _export(colls, case, w)
@@ -249,6 +262,14 @@ def h_import(req):
 
     text = req["text"]
     out = {"hashseed": os.environ.get("PYTHONHASHSEED"), "biopython": None, "modes": {}}
+    if req.get("prior_text"):
+        # a long-lived importer: it parsed another file (all three modes) earlier in this process
+        for mode in MODES:
+            try:
+                list(ParsedAnnotationRecord.parsed_annotation_records_to_model(list(parse_genbank(simdisk.SimReader(req["prior_text"]), gbk_type=GenBankParserType[mode]))))
+                out["prior_parsed"] = True
+            except Exception:
+                pass
     try:
         out["biopython"] = _biopython_read(text)
     except Exception as e:
@@ -541,7 +562,9 @@ def run_case(case):
     stats["conditioned"] += int(case["conditioned"])
     stats["with_translations"] += int(case["update_translations"])
     stats["W_max"] = a["W"]
-    imp = nd.call(case["hs_b"], {"op": "c12.import", "text": t1, "reader_chunk": case["reader_chunk"]})
+    imp = nd.call(case["hs_b"], {"op": "c12.import", "text": t1, "reader_chunk": case["reader_chunk"], "prior_text": a.get("prior_text")})
+    stats["stale_exporter"] += int("prior_text" in a)
+    stats["stale_importer"] += int(bool(imp.get("prior_parsed")))
     stats["hashseed_differs"] += int(case["hs_a"] != case["hs_b"])
     stats["parses"] += 3
     stats["reader_reads"] += sum(imp["modes"][m].get("short_reads", 0) for m in MODES)
@@ -742,6 +765,8 @@ def evidence(agg, tier, seed, wall, batches):
             "write_fault(k)": st["write_faults_fired"], "files_with_write_fault_enumeration": st["write_fault_files"],
             "files_where_every_k_was_enumerated": st["write_fault_enumerated_all"], "max_writes_per_file_W": st["W_max"],
             "short_read(reader chunking 1/16/256 chars)": st["parses"], "hashseed(importer differs)": st["hashseed_differs"],
+            "stale_exporter(exported a strain twin earlier in the same process)": st["stale_exporter"],
+            "stale_importer(parsed another file earlier in the same process)": st["stale_importer"],
             "files_whose_text_differs_between_hash_seeds(set order of qualifiers)": st["files_differing_in_text_across_hashseeds(qualifier order)"],
         },
         "reach_probes": {
